@@ -47,7 +47,8 @@ where
             func,
             call_count,
             current_index: 0,
-            done: false,
+            // Nothing is owed (e.g. a chain of oneway calls only): end without receiving.
+            done: call_count == 0,
             _phantom: core::marker::PhantomData,
         }
     }
